@@ -83,6 +83,45 @@ def check_run(acc, m, e, n, rep, unit, cont=None):
         acc.outcomes[('continuation', ok2)] += 1
 
 
+def check_other_schedules(acc, m, e, n, unit):
+    """(a) run, reset, run on the SAME Solver: the second axis is again the fresh grid 0, dt, ..., T;
+       (b) continuation with a step that does not divide the previous final time: instants start + i*dt2."""
+    dtF = dec(m, e)
+    dt = float(dtF)
+    T = float(dtF * n)
+    case = {'kind': 'sched', 'm': m, 'e': e, 'n': n, 'unit': unit}
+    mod = sim.Model(SPEC)
+    try:
+        mod.run([dt, unit], [T, unit])
+        mod.pt.reset()
+        mod.apply_init()
+        mod.run([dt, unit], [T, unit])
+    except Exception as ex:
+        acc.violation(f'C11/after-reset/run-error/{type(ex).__name__}', 'run, reset, run succeeds', case, {'exc': repr(ex)[:200]})
+        return
+    acc.executions += 2
+    vals = [t.to(unit).value for t in mod.pt.time]
+    acc.transitions += len(vals)
+    r = judge(acc, case, vals, 0.0, dt, T, n, 'after-reset-same-solver', first=True)
+    acc.outcomes[('after-reset', r)] += 1
+    # (b)
+    dt2 = dt * 0.7
+    n2 = 2 + (n + m) % 4
+    T2 = dt2 * n2
+    before = len(vals)
+    try:
+        mod.run([dt2, unit], [T2, unit])
+    except Exception as ex:
+        acc.violation(f'C11/continuation-other-step/run-error/{type(ex).__name__}', 'continuation succeeds', case, {'exc': repr(ex)[:200]})
+        return
+    acc.executions += 1
+    vals2 = [t.to(unit).value for t in mod.pt.time]
+    acc.transitions += len(vals2) - before
+    if r == 'ok' and vals2[:before] == vals:
+        r2 = judge(acc, case, vals2[before - 1:], vals[-1], dt2, T2, n2, 'continuation-other-step', first=False)
+        acc.outcomes[('continuation-other-step', r2)] += 1
+
+
 def check_stopped(acc, m, e, n, unit):
     """With a stop condition the axis is a prefix of the grid."""
     dtF = dec(m, e)
@@ -153,12 +192,18 @@ def run_shard(shard, tier):
                     if rep == 'lit' and n >= 4 and (n % 3 == 1 or tier != 'quick'):
                         check_stopped(acc, m, e, n, unit)
                         acc.nstates += 1
+                    if rep == 'lit' and (n % 4 == 2 or tier != 'quick'):
+                        check_other_schedules(acc, m, e, n, unit)
+                        acc.nstates += 1
     acc.sample({'dt': f'{m}e-2', 'n': 30, 'T': 'dt*n and decimal literal', 'units': UNITS})
     return acc
 
 
 def replay(case):
     acc = Acc()
+    if case.get('kind') == 'sched':
+        check_other_schedules(acc, case['m'], case['e'], case['n'], case['unit'])
+        return acc.violations
     if case.get('kind') == 'stopped':
         check_stopped(acc, case['m'], case['e'], case['n'], case['unit'])
         return acc.violations
